@@ -28,7 +28,14 @@ LOGICAL_NAMES = {1: "STRING", 2: "MAP", 3: "LIST", 4: "ENUM", 6: "DATE", 11: "NU
                  14: "UUID", 15: "FLOAT16"}
 
 
+# newer / unknown members of the LogicalType union (9 = UNKNOWN, 16 VARIANT, 17 GEOMETRY, 18 GEOGRAPHY, 19, 20 not assigned yet):
+# a reader must skip the member whatever it holds and expose an "unknown" logical type (code 0); wire = (member id, body variant)
+RAW_LOGICALS = [(fid, v) for fid in (9, 16, 17, 18, 19, 20) for v in (0, 1, 2)]
+
+
 def logical_tuple(code):
+    if isinstance(code, tuple):
+        return ("RAW", code[0], code[1])
     fid, a, b = code // 10000, (code // 100) % 100, code % 100
     if fid in LOGICAL_NAMES:
         return (LOGICAL_NAMES[fid],)
@@ -60,12 +67,18 @@ def count_nodes(forest):
 
 
 class Namer:
-    def __init__(self, rng, dup=0.0):
-        self.k, self.rng, self.dup, self.used = 0, rng, dup, []
+    def __init__(self, rng, dup=0.0, dots=0.0):
+        self.k, self.rng, self.dup, self.used, self.dots = 0, rng, dup, [], dots
 
     def __call__(self):
         if self.used and self.rng.random() < self.dup:
             return self.rng.choice(self.used)
+        if self.dots and self.rng.random() < self.dots:
+            plain = [u for u in self.used if u < 9000]
+            c = self.rng.choice([SPECIAL0 + self.rng.randrange(len(SPECIAL_NAMES))] +
+                                ([self.rng.choice([20000, 30000, 40000]) + self.rng.choice(plain)] if plain else []))
+            self.used.append(c)
+            return c
         self.k += 1
         self.used.append(self.k)
         return self.k
@@ -75,6 +88,8 @@ def leaf_payload(rng):
     ty = rng.randrange(8)
     tlen = rng.choice([1, 12, 16, 255]) if ty == pq.FIXED_LEN_BYTE_ARRAY else 0
     lg = rng.choice(LOGICALS) if rng.random() < 0.3 else None
+    if rng.random() < 0.08:
+        lg = (0, rng.choice(RAW_LOGICALS))       # exposed as code 0, written as the raw union member
     return ty, tlen, lg
 
 
@@ -100,7 +115,7 @@ def tree_text(t):
         if isinstance(x, str):
             out.append(x)
         elif x[0] == "L":
-            out.append("L%d.%d.%d.%d.%s" % (x[1], x[2], x[3], x[4], "-" if x[5] is None else x[5]))
+            out.append("L%d.%d.%d.%d.%s" % (x[1], x[2], x[3], x[4], "-" if x[5] is None else x[5][0] if isinstance(x[5], tuple) else x[5]))
         else:
             out.append("G%d.%d[" % (x[1], x[2]))
             stack.append("]")
@@ -117,7 +132,9 @@ def flatten(t, out):
     while stack:
         x = stack.pop()
         if x[0] == "L":
-            out.append(dict(name=x[2], hastype=1, type=x[3], tlen=x[4], hasrep=1, rep=x[1], nc=0, logical=x[5]))
+            lg = x[5]
+            out.append(dict(name=x[2], hastype=1, type=x[3], tlen=x[4], hasrep=1, rep=x[1], nc=0,
+                            logical=lg[0] if isinstance(lg, tuple) else lg, lwire=lg[1] if isinstance(lg, tuple) else None))
         else:
             out.append(dict(name=x[2], hastype=0, type=0, tlen=0, hasrep=1, rep=x[1], nc=len(x[3]), logical=None))
             stack.extend(reversed(x[3]))
@@ -140,8 +157,34 @@ def elems_text(els):
     return ",".join(one(e) for e in els) if els else "-"
 
 
+SPECIAL_NAMES = ["a.b.c", "ratio.", ".hidden", "stats.v", "v", "hidden", "c", "nosuch.v", "with space", "na\u00efve.\u00e9", "", ".", "..", "b.c"]
+SPECIAL0 = 19001
+
+
 def name_str(i):
-    return "schema" if i == 0 else "n%d" % i
+    """identifier -> column name (same scheme as harness/h_schema.c name_of_id): names with dots, leading / trailing dots,
+    spaces, non-ASCII bytes, the empty name; 20000+k is "ghost.n<k>", 30000+k "n<k>.", 40000+k ".n<k>" """
+    if i == 0:
+        return "schema"
+    if i >= 40000:
+        return ".n%d" % (i - 40000)
+    if i >= 30000:
+        return "n%d." % (i - 30000)
+    if i >= 20000:
+        return "ghost.n%d" % (i - 20000)
+    if SPECIAL0 <= i < SPECIAL0 + len(SPECIAL_NAMES):
+        return SPECIAL_NAMES[i - SPECIAL0]
+    return "n%d" % i
+
+
+def dotted_finds(names, rng, k=6):
+    """lookups that must answer -1 unless they are real names: <anything>.<existing leaf>, <leaf>., .<leaf>, table names"""
+    base = [n for n in names if 0 < n < 9000]
+    out = []
+    for n in rng.sample(base, min(len(base), k)):
+        out += [20000 + n, 30000 + n, 40000 + n]
+    out += rng.sample(range(SPECIAL0, SPECIAL0 + len(SPECIAL_NAMES)), 4)
+    return out
 
 
 def file_of(els, leaves=None):
@@ -154,7 +197,7 @@ def file_of(els, leaves=None):
             type_length=e["tlen"] if e.get("tlen_present", e["tlen"] != 0) else None,
             repetition=e["rep"] if e["hasrep"] else None,
             num_children=e["nc"] if e.get("nc_present", e["nc"] != 0) else None,
-            logical=None if e["logical"] is None else logical_tuple(e["logical"])))
+            logical=None if e["logical"] is None else logical_tuple(e.get("lwire") or e["logical"])))
     rgs = []
     if leaves is not None:
         rgs = [pq.row_group([pq.column_chunk(l[3], [name_str(l[2])], 0) for l in leaves], 0)]
@@ -168,8 +211,13 @@ def tree_case(root_rep, forest, rng, with_rg, extra_finds=()):
         flatten(t, els)
     lv = []
     leaves_of(forest, lv)
+    # logical types on groups too (LIST, MAP, or a newer union member that must be skipped): the rest of the tree must stay intact
+    for e in els[1:]:
+        if not e["hastype"] and rng.random() < 0.12:
+            c = rng.choice([20000, 30000, (0, rng.choice(RAW_LOGICALS)), (0, rng.choice(RAW_LOGICALS))])
+            e["logical"], e["lwire"] = (c[0], c[1]) if isinstance(c, tuple) else (c, None)
     names = sorted({e["name"] for e in els})
-    finds = names[:12] + list(extra_finds)
+    finds = names[:12] + [n for n in names if n >= 9000][:6] + dotted_finds(names, rng) + list(extra_finds)
     data = file_of(els, lv if with_rg else None)
     ttxt = "%s.0[%s]" % ("-" if root_rep is None else root_rep, ";".join(tree_text(t) for t in forest))
     return "schema %s %s %s %d %s" % (data.hex(), elems_text(els), ",".join(map(str, finds)) or "-", 1 if with_rg else 0, ttxt)
@@ -220,7 +268,7 @@ def gen_random(tier, rng):
     k = 400 if tier == "quick" else 4000
     for i in range(k):
         n = rng.choice([1, 2, 3, 8, 20, 50, 200]) if rng.random() < 0.3 else rng.randint(1, 200)
-        forest = random_forest(rng, n, rng.randint(1, 12), Namer(rng, dup=rng.choice([0, 0, 0.2, 0.6])))
+        forest = random_forest(rng, n, rng.randint(1, 12), Namer(rng, dup=rng.choice([0, 0, 0.2, 0.6]), dots=rng.choice([0, 0.1, 0.3])))
         lines.append(tree_case(rng.choice([None, 0, 1, 2]), forest, rng, with_rg=rng.random() < 0.5, extra_finds=(9999,)))
     # a group as last child, sibling groups after deep ones, deep chains
     for d in (1, 2, 3, 12, 13, 40, 200):
@@ -291,18 +339,21 @@ def gen_builder(tier, rng):
     for i in range(k):
         n = rng.choice([0, 1, 2, 62, 63, 64, 65, 66, 127, 128, 129, 255, 256, 257, 300]) if rng.random() < 0.5 else rng.randint(0, 300)
         mixed = rng.random() < 0.35
-        namer = Namer(rng, dup=rng.choice([0, 0, 0.1]))
+        namer = Namer(rng, dup=rng.choice([0, 0, 0.1]), dots=rng.choice([0, 0, 0.15]))
         ops, leaves = [], []
         for j in range(n):
             if mixed and rng.random() < 0.15:
                 ops.append("g:%d:%d:%d" % (namer(), rng.choice([0, 1, 2, 2, 3]), rng.choice([-1, 0, 0, 1, 5, -2])))
             else:
                 ty, tlen, lg = leaf_payload(rng)
+                if isinstance(lg, tuple):
+                    lg = None                       # the builder API cannot express an unknown logical type
                 rp = rng.choice([0, 1, 2]) if not mixed else rng.choice([0, 1, 2, 2, 3, -1])
                 nm = namer()
                 ops.append("c:%d:%d:%s:%d:%d" % (nm, ty, "-" if lg is None else lg, rp, tlen))
                 leaves.append(("L", rp, nm, ty, tlen, lg))
-        finds = sorted({l[2] for l in leaves})[:10] + [0, 99999]
+        lnames = sorted({l[2] for l in leaves})
+        finds = lnames[:10] + [n for n in lnames if n >= 9000][:6] + (dotted_finds(lnames, rng, 3) if lnames else []) + [0, 8999]
         tree = "-" if mixed else "-.0[%s]" % ";".join(tree_text(t) for t in leaves)
         lines.append("builder %s %s %s" % (",".join(ops) or "-", ",".join(map(str, finds)), tree))
     return lines
@@ -371,8 +422,11 @@ def judge(line, impl, model):
     FL = [x.split("/") for x in lst(s["FL"])]           # name/hastype/type/tlen/hasrep/rep/nc/logical
     if not is_builder:
         own = [x.split("/") for x in lst(toks[2])]
-        if own != FL:
+        if [o[:7] + ([o[7]] if o[1] == "1" else []) for o in own] != [f[:7] + ([f[7]] if f[1] == "1" else []) for f in FL]:
             out.append(("tie", "the generator's flattening differs from SchemaTree.schema_of"))
+        for i, (e, o) in enumerate(zip(E, own)):
+            if o[1] == "0" and e[4] != o[7]:
+                out.append(("violation", "group element %d: logical type accessor gives %s, the file states %s" % (i, e[4], o[7])))
     if a["n"] != str(len(FL)) or len(E) != len(FL):
         out.append(("violation", "num_elements %s, the file states %d" % (a["n"], len(FL))))
         return out
